@@ -66,7 +66,8 @@ func NewChannel(
 		PromptPattern:     getPromptPattern(),
 		ReturnChar:        []byte(DefaultReturnChar),
 
-		done: make(chan struct{}),
+		done:       make(chan struct{}),
+		readerDone: make(chan struct{}),
 
 		Q:    util.NewQueue(),
 		Errs: make(chan error),
@@ -106,7 +107,9 @@ type Channel struct {
 	PromptPattern     *regexp.Regexp
 	ReturnChar        []byte
 
-	done chan struct{}
+	done       chan struct{}
+	closeOnce  sync.Once
+	readerDone chan struct{}
 
 	Q              *util.Queue
 	Errs           chan error
@@ -179,34 +182,32 @@ func (c *Channel) Open() (reterr error) {
 	return nil
 }
 
-// Close signals to stop the channel read loop and closes the underlying Transport object.
+// Close signals to stop the channel read loop and closes the underlying Transport object. Calling
+// Close more than once is safe, only the first call does anything.
 func (c *Channel) Close() error {
+	var err error
+
+	c.closeOnce.Do(func() {
+		err = c.close()
+	})
+
+	return err
+}
+
+func (c *Channel) close() error {
 	c.l.Info("channel closing...")
 
+	verifYield("C_done")
+
 	// c.Errs is deliberately not closed: the read loop may be about to send on it, it gives up that
-	// send once it sees the done signal instead
-	ch := make(chan struct{})
-
-	verifYield("C_flag")
-
-	if !c.readLoopExited {
-		verifYield("C_help")
-
-		go func() {
-			defer close(ch)
-
-			verifYield("H_send")
-
-			c.done <- struct{}{}
-		}()
-	} else {
-		close(ch)
-	}
+	// send once it sees the done signal instead. closing done (rather than sending on it) means
+	// nobody has to wait for a read loop that already exited or that is stuck in a blocking read.
+	close(c.done)
 
 	verifYield("C_wait")
 
 	select {
-	case <-ch:
+	case <-c.readerDone:
 		c.l.Debug("closing underlying transport...")
 
 		verifYield("C_tclose")
